@@ -222,10 +222,25 @@ def rec_f32(info):
     return False
 
 COMPS = ["queue"]
+GO_EXTRA = ["queue_redis"]      # cmd/drive_queue_redis: same line protocol, persistence/queue/redis over internal/respfake
+
+def gen_redis(rng):
+    """same histories as the mem stream, plus the occasional Read with an empty id list (`lrange cur cur-1`)"""
+    ops = gen(rng)
+    if rng.random() < 0.1:
+        ops.insert(rng.randint(2, len(ops) - 4), "read -")
+    return ops
+
+class RedisStream(core.Stream):
+    """implementation side = drive_queue_redis; model side = the SAME oracle_queue (Model/Queue.lean)"""
+    def impl(self, cases):
+        return core.run_parallel([core.drive_exe("queue_redis")], cases, timeout=self.timeout)
 
 def streams(tier):
     n = 20000 if tier == "quick" else 400000
-    return [(core.Stream("queue-mem", "queue", gen, predicate, nontrivial, keep_prefix=2), n)]
+    nr = 8000 if tier == "quick" else 150000
+    return [(core.Stream("queue-mem", "queue", gen, predicate, nontrivial, keep_prefix=2), n),
+            (RedisStream("queue-redis", "queue", gen_redis, predicate, nontrivial, keep_prefix=2), nr)]
 
 def run(r):
     return core.standard_run(r, __import__(__name__, fromlist=["x"]))
@@ -236,4 +251,6 @@ RULE = ("random histories of new/init/add/read/readinflight/remove/replace/close
         "implementation's outputs. non-trivial = distinct history that fills the queue (a drop for `full`/`expiredinflight`) and later reads or re-initialises")
 ASSUME = ["sync.Mutex/Cond make each queue method atomic (one model step per call)",
           "time is symbolic: expiry past/future = now∓2h; in-flight expiry 1ns or 1h",
-          "redis backend: see stream queue-redis (respfake, not real redis)"]
+          "redis backend: stream queue-redis drives persistence/queue/redis over harness/internal/respfake (an in-process RESP2 server "
+          "with redis' documented semantics for the 14 commands used), not a real redis; it is compared with the same Lean model, so "
+          "agreement on a history = redis_refines_mem on that history"]
